@@ -135,6 +135,36 @@ def gen_cases(c):
         s = b"".join(recs)
         add(gzip.compress(s), rand_frags(rng, 10 ** 6, 999), ("ok", recs), "valid/gz/one-member", recs)
         add(b"".join(gzip.compress(r) for r in recs), [], ("ok", recs), "valid/gz/member-per-record", recs)
+    # --- .warc.gz with one gzip member per record, the FIRST member ending on / around an input-buffer
+    #     refill of ReadStream (absolute offset 6 + 16384*j + d): the trailer straddles the refill, END
+    #     arrives in a call that produced no output, and the next member must still be read
+    def stored_member(data):
+        co = zlib.compressobj(0, zlib.DEFLATED, 31)
+        return co.compress(data) + co.flush()
+    for j in (1, 2):
+        for d in range(-2, 17):
+            target = 6 + 16384 * j + d
+            r1 = None
+            for n in range(target - 200, target):
+                body = rbytes(max(0, n - 60))
+                cand = rec(body, headers=())
+                if len(stored_member(cand)) == target:
+                    r1 = cand
+                    break
+                # adjust the body length by the difference and try once more
+                diff = target - len(stored_member(cand))
+                body = rbytes(max(0, len(body) + diff))
+                cand = rec(body, headers=())
+                if len(stored_member(cand)) == target:
+                    r1 = cand
+                    break
+            if r1 is None:
+                continue
+            r2 = rec(b"second record %d" % d)
+            r3 = rec(b"")
+            stream = stored_member(r1) + gzip.compress(r2) + gzip.compress(r3)
+            add(stream, [] if d % 2 else rand_frags(rng, len(stream), 5000), ("ok", [r1, r2, r3]),
+                "valid/gz/member-ends-at-refill-boundary%+d" % d, [r1, r2, r3])
     # --- broken framing -> must be an error, records before it intact
     good = rec(b"first body")
     tail = rec(b"tail")
@@ -179,10 +209,30 @@ def gen_cases(c):
     big = b"".join(bigs[0])
     for cut in (4096, 4097, 5000, len(bigs[0][0]) + 3, len(big) - 1, len(big) - 4):
         add(big[:cut], [], ("err", None), "broken/truncated-large")
+    # --- mutants of valid streams (1-3 byte edits with bytes that matter to the parser): no expectation
+    #     except the model's answer, no hang/crash, and C17_success_is_exact as a run-time oracle
+    interesting = [13, 10, 32, 9, 11, 12, 0, 43, 45, 48, 57, 58, 255, 67, 99]
+    seeds = [b"".join(x) for x in smalls[:5]] + [rec(b"0123456789", headers=(b"Content-Type: text/plain",)) + rec(b"")]
+    for _ in range(700 if c.tier == "quick" else 8000):
+        sdata = bytearray(rng.choice(seeds))
+        for _ in range(rng.randrange(1, 4)):
+            pos = rng.randrange(len(sdata) + 1)
+            op = rng.random()
+            b = rng.choice(interesting) if rng.random() < 0.8 else rng.randrange(256)
+            if op < 0.4 and pos < len(sdata):
+                sdata[pos] = b
+            elif op < 0.75:
+                sdata.insert(pos, b)
+            elif pos < len(sdata):
+                del sdata[pos]
+        sdata = bytes(sdata)
+        if sdata[:2] == b"\x1f\x8b" or sdata[:3] == b"BZh" or sdata[:6] == b"\xfd7zXZ\x00":
+            continue
+        add(sdata, rng.choice(([], rand_frags(rng, len(sdata), 6), [1] * len(sdata))), ("fuzz",), "fuzz/mutated-valid-stream")
     return cases
 
 
-def run_parallel(c, rng, work, recs, jobs, gz, inputs, gz_input=False):
+def run_parallel(c, rng, work, recs, jobs, gz, inputs, gz_input=False, child=("cat",)):
     names = []
     if inputs:
         k = len(recs) // inputs
@@ -192,13 +242,13 @@ def run_parallel(c, rng, work, recs, jobs, gz, inputs, gz_input=False):
             data = b"".join(part)
             open(nm, "wb").write(gzip.compress(data) if gz_input else data)
             names.append(nm)
-        argv_ = [repo_bin("warc_parallel"), "-j", str(jobs)] + (["-z"] if gz else []) + ["-i"] + names + ["--", "cat"]
+        argv_ = [repo_bin("warc_parallel"), "-j", str(jobs)] + (["-z"] if gz else []) + ["-i"] + names + ["--"] + list(child)
         stdin = b""
     else:
-        argv_ = [repo_bin("warc_parallel"), "-j", str(jobs)] + (["-z"] if gz else []) + ["cat"]
+        argv_ = [repo_bin("warc_parallel"), "-j", str(jobs)] + (["-z"] if gz else []) + list(child)
         stdin = b"".join(recs)
-    st, so, se = run_tool(argv_, stdin=stdin, timeout=25)
-    how = "warc_parallel -j %d %s%s cat   (%d records, %d bytes)" % (jobs, "-z " if gz else "", ("-i %d files%s --" % (inputs, " (gz)" if gz_input else "")) if inputs else "<stdin", len(recs), sum(len(r) for r in recs))
+    st, so, se = codeclog.run_tool_limited(argv_, stdin=stdin, timeout=25)
+    how = "warc_parallel -j %d %s%s %s   (%d records, %d bytes)" % (jobs, "-z " if gz else "", ("-i %d files%s --" % (inputs, " (gz)" if gz_input else "")) if inputs else "<stdin", " ".join(child), len(recs), sum(len(r) for r in recs))
     rep = {"op": "warc_parallel", "how": how, "jobs": jobs, "gzip": gz, "inputs": inputs, "status": st,
            "records_hex": [r.hex() for r in recs[:6]] if sum(len(r) for r in recs[:6]) < 3000 else "large", "stderr": se.decode("utf-8", "replace")[-200:]}
     if st != 0:
@@ -243,6 +293,8 @@ def main(argv):
         c.broken.append("build of the repo working tree failed: " + blog[-800:])
         return c.finish(rule="build failed")
     c.proofs(extra_trusted=["independent strict WARC framing parser py_parse in checks/C17.py", "Python gzip/zlib as independent codecs"])
+    if c.tier == "thorough":
+        coqchk(c)
     drv, dlog = build_driver("C17")
     impl = hx_bin("hx_warc")
     rng = c.rng
@@ -253,7 +305,7 @@ def main(argv):
     c.sample({"case": lines[0][:300]})
     c.sample({"case": lines[len(lines) // 2][:300]})
     c.sample({"case": lines[-40][:300]})
-    results, _ = codeclog.run_logged(impl, lines, timeout_case=10, preload=False)
+    results, _ = codeclog.run_logged(impl, lines, timeout_case=20, preload=False, max_bad=4)
 
     # --- correspondence with the extracted model (for compressed input: the model
     #     reads the decompressed stream; by C17_records_exact the fragmentation is irrelevant)
@@ -286,6 +338,13 @@ def main(argv):
         if res.startswith("HANG") or res.startswith("CRASH"):
             c.violation("warc-hang-or-crash: %s gave %s" % (x["bucket"], res), rep)
             continue
+        if x["expect"][0] == "fuzz":
+            if res.startswith("OK"):
+                got = res.split(" ")[1]
+                recs_ = [] if got == "-" else [b"" if r == "e" else bytes.fromhex(r) for r in got.split(",")]
+                if b"".join(recs_) != x["stream"] or any(not r.endswith(CRLF2) for r in recs_):
+                    c.violation("success-is-not-exact: a stream read successfully is not the concatenation of the returned CRLFCRLF-terminated records: %r -> %s" % (x["stream"][:80], res[:80]), rep)
+            continue
         kind, want = x["expect"]
         if kind == "ok":
             if res != "OK " + recs_str(want):
@@ -298,6 +357,11 @@ def main(argv):
                 got = res.split(" ")[2] if len(res.split(" ")) > 2 else "-"
                 if got != recs_str(want):
                     c.violation("records-before-error-wrong: %s: expected %d intact records before the error, got %s" % (x["bucket"], len(want), res[:80]), rep)
+
+    # --- thorough: the same cases through the ASan+UBSan build of the harness (reads outside the
+    #     buffers, e.g. the trailer test of a record shorter than 4 bytes, show up here)
+    if c.tier == "thorough":
+        asan_lines(c, "hx_warc", [l for l in lines if len(l) < 400000], what="(WARCReader)")
 
     # --- warc_parallel: every record exactly once and intact, any -j, -z one member per record
     work = os.path.join(codeclog.scratch_dir(), "c17-%d" % os.getpid())
@@ -325,13 +389,67 @@ def main(argv):
     if c.tier == "thorough":
         for _ in range(40):
             runs.append((rng.randrange(1, 17), rng.random() < 0.5, rng.choice((0, 0, 1, 3)), rng.random() < 0.3, make_records(rng.randrange(1, 400), rng.choice((100, 5000, 100000)))))
+    # truncated input to the TOOL (stdin, -i file, plain and gz): must not exit 0
+    two = [rec(b"one"), rec(b"two!", headers=())]
+    full = b"".join(two)
+    cuts = [k for k in range(1, len(full)) if k != len(two[0])]
+    if c.tier == "quick":
+        cuts = cuts[::3] + [len(two[0]) - 1, len(two[0]) + 1, len(full) - 1, len(full) - 4]
+    for idx, k in enumerate(sorted(set(cuts))):
+        mode = idx % 3
+        data_in = full[:k]
+        if mode == 0:
+            argv_ = [repo_bin("warc_parallel"), "-j", "1", "cat"]
+            st, so, se = codeclog.run_tool_limited(argv_, stdin=data_in, timeout=25)
+            how = "head -c %d two-records.warc | warc_parallel -j 1 cat" % k
+        else:
+            nm = os.path.join(work, "cut%d.warc%s" % (k, ".gz" if mode == 2 else ""))
+            open(nm, "wb").write(gzip.compress(data_in) if mode == 2 else data_in)
+            argv_ = [repo_bin("warc_parallel"), "-j", "2", "-i", nm, "--", "cat"]
+            st, so, se = codeclog.run_tool_limited(argv_, stdin=b"", timeout=25)
+            how = "warc_parallel -j 2 -i <first %d bytes of a 2-record stream%s> -- cat" % (k, ", gzipped" if mode == 2 else "")
+        c.count(("truncated-tool-input", k, mode), bucket="warc_parallel/truncated-input/%s" % ("stdin", "file", "gz-file")[mode])
+        if st == 0:
+            c.violation("warc_parallel-truncated-input-accepted: %s exits 0 (%d output bytes); a stream cut inside a record must be an error" % (how, len(so)),
+                        {"op": "warc_parallel", "how": how, "input_hex": data_in.hex(), "status": st, "stdout_len": len(so)})
+    # several inputs, only one of them truncated
+    good_in = os.path.join(work, "good.warc")
+    open(good_in, "wb").write(b"".join(make_records(12, 500)))
+    for k in (len(full) - 2, len(two[0]) + 7):
+        bad_in = os.path.join(work, "bad%d.warc" % k)
+        open(bad_in, "wb").write(full[:k])
+        for order in ([good_in, bad_in], [bad_in, good_in]):
+            st, so, se = codeclog.run_tool_limited([repo_bin("warc_parallel"), "-j", "3", "-i"] + order + ["--", "cat"], stdin=b"", timeout=25)
+            c.count(("truncated-one-of-two", k, order[0] == good_in), bucket="warc_parallel/truncated-input/one-of-two-files")
+            if st == 0:
+                c.violation("warc_parallel-truncated-input-accepted: one of two -i files is cut after %d bytes, the tool exits 0" % k,
+                            {"op": "warc_parallel", "how": "warc_parallel -j 3 -i good.warc <first %d bytes of a 2-record stream> -- cat" % k, "status": st})
+    # .warc.gz files whose first member ends around a refill boundary, through the tool
+    for x in [y for y in cases if y["bucket"].startswith("valid/gz/member-ends-at-refill-boundary")][::4]:
+        nm = os.path.join(work, "boundary.warc.gz")
+        open(nm, "wb").write(x["stream"])
+        st, so, se = codeclog.run_tool_limited([repo_bin("warc_parallel"), "-j", "2", "-i", nm, "--", "cat"], stdin=b"", timeout=25)
+        c.count(("gz-boundary-tool", x["bucket"]), bucket="warc_parallel/gz-member-at-refill-boundary")
+        got = py_parse(so) if st == 0 else None
+        if st != 0 or got is None or collections.Counter(got) != collections.Counter(x["records"]):
+            c.violation("warc_parallel-loses-records-of-multi-member-gz: %s: status %s, %s of %d records" % (x["bucket"], st, "?" if got is None else len(got), len(x["records"])),
+                        {"op": "warc_parallel", "how": "warc_parallel -j 2 -i <stream.gz> -- cat", "stream_hex": x["stream"].hex()[:200000], "bucket": x["bucket"]})
+    # many tiny records, all workers emitting at once: contention on the shared output stream
+    runs.append((8, False, 0, False, make_records(4000, 60)))
+    runs.append((6, True, 2, False, make_records(1500, 60)))
+    # an identity child that re-chunks its output (7-byte writes): the collector's WARCReader sees the
+    # records of the child in small fragments
+    runs.append((2, False, 0, False, make_records(25, 400), ("dd", "bs=7", "status=none")))
+    runs.append((3, True, 0, False, make_records(25, 400), ("dd", "bs=4099", "status=none")))
     hangs = 0
-    for jobs, gz, inputs, gzin, recs in runs:
-        c.count(("parallel", jobs, gz, inputs, len(recs)), bucket="warc_parallel/j=%d/%s/%s" % (jobs, "gz-out" if gz else "plain-out", "files" if inputs else "stdin"))
+    for run in runs:
+        jobs, gz, inputs, gzin, recs = run[:5]
+        child = run[5] if len(run) > 5 else ("cat",)
+        c.count(("parallel", jobs, gz, inputs, len(recs), child), bucket="warc_parallel/j=%d/%s/%s%s" % (jobs, "gz-out" if gz else "plain-out", "files" if inputs else "stdin", "" if child == ("cat",) else "/child=" + child[0]))
         if hangs >= 2:
             c.broken.append("warc_parallel runs skipped after two hangs")
             break
-        if run_parallel(c, rng, work, recs, jobs, gz, inputs, gzin) == "timeout":
+        if run_parallel(c, rng, work, recs, jobs, gz, inputs, gzin, child) == "timeout":
             hangs += 1
     shutil.rmtree(work, ignore_errors=True)
 
